@@ -1161,6 +1161,10 @@ def s7b_merge_counts_in_output(ctx):
         return r
     ebb = ents[0][3][1]
     ko = ents[0][2][1]
+    if ko[0] != "var":
+        # `stats.entry(entry.fileid)` right after `entry.fileid = id`: keyed by id
+        import k2m
+        ko = k2m._model(ctx).forward_entry_reads(ko, ebb)
     kv = peel_var(ko) if ko[0] != "var" else ko
     if ko[0] != "var":
         r.unrec(f, "key of stats.entry(..)", where(b, ebb), "is %s, not a local variable" % origin_str(ko))
@@ -1255,12 +1259,20 @@ def p14b_merge_rollover_test(ctx):
     b, cbb, ct = cps[0]
     # the running offset: a local assigned `L + <copy result>` somewhere and a constant 0 somewhere else
     cand = []
+    fwd = lambda o, bb: o
+    try:
+        import k2m
+
+        if k2m._model(ctx).b is b:
+            fwd = k2m._model(ctx).forward_entry_reads  # `offset += entry.len` after `entry.len = n`
+    except Exception:
+        pass
     for l, ds in b.defs.items():
         acc = zero = False
         for (bb, si, whole) in ds:
             if si == "T" or not whole:
                 continue
-            o = b.origin_rvalue(b.blocks[bb]["stmts"][si]["rv"])
+            o = fwd(b.origin_rvalue(b.blocks[bb]["stmts"][si]["rv"]), bb)
             p = peel(o)
             if p[0] == "field" and p[2] == "0":
                 p = peel(p[1])
@@ -1302,6 +1314,13 @@ def p14b_merge_rollover_test(ctx):
     det = origin_str(o)
     if o[0] == "bin":
         def is_L(x):
+            # also a copy of the offset taken after this entry was added (`let end = self.pos; if end > max`)
+            while x[0] == "var" and x[1] != L and x[3] is not None and x[3][0] == "var":
+                ds_ = [d_ for d_ in b.defs.get(x[1], []) if d_[2]]
+                acc_ = [bb_ for (bb_, si_, w_) in b.defs[L] if si_ != "T" and const_int(b.origin_rvalue(b.blocks[bb_]["stmts"][si_]["rv"])) != 0]
+                if len(ds_) != 1 or not any(ds_[0][0] == a_ or ds_[0][0] in reach(b, [a_], blocked_edges=lambda e_: e_.kind == "unwind", blocked_blocks={cbb}) for a_ in acc_):
+                    break
+                x = x[3]
             return x[0] == "var" and x[1] == L
         def is_max(x):
             return (access_path(x) or "").endswith("conf.max_file_size")
@@ -1396,6 +1415,9 @@ def p12b_read_error_ends_handler(ctx):
         labs_all = set(sum(info["arms"].values(), []))
         on = info["on"]
         from_read = bool(phi_mentions(b, on, lambda y: y[0] == "variant" and str(y[2]).startswith("_"))) or bool(phi_mentions(b, on, lambda y: y[0] == "call" and y[3] == (b.path, rbb)))
+        # the result of read_frame itself, not of something computed from the frame (Command::try_from(frame)?)
+        if origin_mentions(on, lambda y: y[0] == "call" and y[1] and y[1].startswith(("net::", "storage::")) and not y[1].endswith("read_frame") and y[3][0] == b.path):
+            from_read = False
         if labs_all & {"Break", "Err"} and from_read and not err_dsts:
             for e in b.succ[sb]:
                 if set(info["arms"].get(e.dst, [])) & {"Break", "Err"}:
@@ -1404,6 +1426,24 @@ def p12b_read_error_ends_handler(ctx):
             for e in b.succ[sb]:
                 if info["arms"].get(e.dst) == ["None"]:
                     none_dsts.append((sb, e.dst))
+    # select! with a refutable pattern (`Ok(frame) = read_frame() => ..`): an outcome that does not match disables the
+    # branch and the select goes on waiting for the others — an error would park the handler instead of ending it
+    for x in fam:
+        if x.def_kind != "Closure" or x.coroutine:
+            continue
+        polls = [(bb, t) for _, bb, t in calls_in([x], "std::future::Future::poll") if "macro:$crate::select" in (t.get("exp") or "") + (t.get("fn_exp") or "")]
+        if not polls:
+            continue
+        sites = {(x.path, bb) for bb, t in polls}
+        for sb in sorted(x.live_blocks()):
+            info = x.switch_info(sb)
+            if not info or info["kind"] != "variant":
+                continue
+            labs_all = set(sum(info["arms"].values(), []))
+            if labs_all <= {"Ready", "Pending"}:
+                continue
+            if origin_mentions(info["on"], lambda y: y[0] == "call" and y[3] in sites):
+                r.bad(f, "select! patterns accept every outcome of their future", where(x, sb), "a branch pattern tests the outcome (%s): an outcome that does not match (a read error) only disables the branch — the handler keeps waiting for the other branches, holding its connection slot, instead of ending" % "/".join(sorted(labs_all)))
     if not err_dsts:
         r.unrec(f, "error side of the read_frame result", where(b, rbb), "not found")
         return r
